@@ -52,6 +52,11 @@ def parseScript (s : String) : List RngResp :=
   (s.splitOn "+").map (fun t =>
     if t.startsWith "ok:" then RngResp.ok (parseHex (t.drop 3).toString)
     else if t.startsWith "errafter:" then RngResp.errAfter (parseHex (t.drop 9).toString)
+    else if t.startsWith "errafter@" then
+      -- `errafter@<code>:<hex>`: the error code is the generator's business; the library must treat every error alike
+      match (t.drop 9).toString.splitOn ":" with
+      | [_, h] => RngResp.errAfter (parseHex h)
+      | _ => RngResp.errBefore
     else RngResp.errBefore)
 
 def showCalls (cs : List RngCall) : String :=
